@@ -82,7 +82,7 @@ def _value(draw, dtype):
 @st.composite
 def _pad_variable_cases(draw, tier):
     mode = draw(st.sampled_from(MODES))
-    illegal = draw(st.integers(0, 19)) == 0  # 5 %: documented exceptions
+    illegal = draw(st.sampled_from([True] + [False] * 15))  # documented exceptions
     b = draw(_batch(tier, min_len=0 if (mode == "constant" or illegal) else 1))
     T, N, lens = b["T"], b["N"], b["lens"]
     pad = [[0] * N, [0] * N]
@@ -189,31 +189,41 @@ subcheck("C09", "pad_variable_enum", _pad_variable_enum, 0, 0, exhaustive=True,
 @st.composite
 def _chunk_cases(draw, tier):
     mode = draw(st.sampled_from(MODES))
-    illegal = draw(st.integers(0, 19)) == 0
+    illegal = draw(st.sampled_from([True] + [False] * 15))
     b = draw(_batch(tier, min_len=0 if (mode == "constant" or illegal) else 1))
     T, N = b["T"], b["N"]
-    give_lens = draw(st.integers(0, 3)) > 0
+    give_lens = draw(st.sampled_from([True, True, True, False]))
     if not give_lens:
         b["lens"] = [T] * N
     lens = b["lens"]
     slices = []
     for n in range(N):
         L = lens[n]
-        kind = draw(st.sampled_from(["any", "any", "inside", "left", "right", "empty", "inverted", "cover"]))
+        kind = draw(st.sampled_from(["any", "any", "inside", "left", "right", "right", "right_offset", "empty",
+                                     "inverted", "cover"]))
         if mode == "reflect" and not illegal:
             lo, hi = -(L - 1), 2 * L - 1  # reflect needs pads < len
         else:
             lo, hi = -T - 3, T + 3
         lo, hi = min(lo, 0), max(hi, 0)
+        if kind == "right_offset" and hi - L < 2:
+            kind = "right"
+        if kind == "right" and hi - L < 1:
+            kind = "any"
+        if kind == "left" and lo > -1:
+            kind = "any"
         if kind == "inside":
             s = draw(st.integers(0, L))
             e = draw(st.integers(s, L))
-        elif kind == "left":
-            s = draw(st.integers(lo, 0))
-            e = draw(st.integers(s, 0))
-        elif kind == "right":
-            s = draw(st.integers(min(L, hi), hi))
-            e = draw(st.integers(s, hi))
+        elif kind == "left":  # wholly inside the left padding, not empty
+            s = draw(st.integers(lo, -1))
+            e = draw(st.integers(s + 1, 0))
+        elif kind == "right":  # wholly inside the right padding, not empty
+            s = draw(st.integers(L, hi - 1))
+            e = draw(st.integers(s + 1, hi))
+        elif kind == "right_offset":  # starts strictly after the first padded element
+            s = draw(st.integers(L + 1, hi - 1))
+            e = draw(st.integers(s + 1, hi))
         elif kind == "empty":
             s = e = draw(st.integers(-T - 3, T + 3))
         elif kind == "inverted":
@@ -332,7 +342,7 @@ subcheck("C09", "chunk_by_slices", _chunk_strategy, 2500, 60000,
 
 
 def _chunk_enum(tier):
-    maxT = 3 if tier == "quick" else 4
+    maxT = 4 if tier == "quick" else 6
     out = []
     k = 0
     for T in range(1, maxT + 1):
@@ -357,7 +367,7 @@ def _chunk_enum(tier):
 
 
 subcheck("C09", "chunk_by_slices_enum", _chunk_enum, 0, 0, exhaustive=True,
-         doc="every (T<=3|4, len 0..T, start and end in -T-2..T+2, mode) next to a full-length companion row",
+         doc="every (T<=4|6, len 0..T, start and end in -T-2..T+2, mode) next to a full-length companion row",
          required_classes=["pad_gt_T", "reflect_wholly_right", "reflect_right_offset", "documented_exception"]
          )(_chunk_check)
 
@@ -448,14 +458,15 @@ def _shift_cases(draw, tier):
     same = draw(st.booleans())
     pl = draw(st.sampled_from(props))
     pr = pl if same else draw(st.sampled_from(props))
-    inject = draw(st.integers(0, 2)) == 0
+    inject = draw(st.sampled_from([True, False, False]))
     draws = None
     if inject:
         d = st.one_of(st.sampled_from(BOUNDARY_DRAWS), st.integers(0, TWO24 - 1),
                       st.integers(0, 15).map(lambda k: k * (TWO24 // 16)))
         draws = draw(st.lists(d, min_size=2 * b["N"], max_size=2 * b["N"]))
     b.update(mode=mode, prop=[pl, pr], scalar_prop=same and draw(st.booleans()), value=_value(draw, b["dtype"]),
-             seed=draw(st.integers(0, 2 ** 31 - 1)), draws=draws, training=draw(st.integers(0, 5)) > 0)
+             seed=draw(st.integers(0, 2 ** 31 - 1)), draws=draws,
+             training=draw(st.sampled_from([True] * 7 + [False])))
     return b
 
 
